@@ -210,3 +210,75 @@ def string_to_variant_table(prog, fn, adt_short):
             else:
                 out[lits[0]] = r
     return out, dups
+
+
+def string_to_string_table(fn):
+    """`match s { "A" => Some("x") | "x", ... }`: {matched literal: first string literal produced on the true edge}."""
+    out = {}
+    for bb, t in fn.calls():
+        cs = callee_short(t)
+        if not cs.endswith('PartialEq>::eq'):
+            continue
+        lits = [a['str'] for a in t['args'] if a['k'] == 'const' and 'str' in a]
+        if not lits or 't' not in t:
+            continue
+        sw = fn.blocks[t['t']]['term']
+        if not sw or sw['k'] != 'switch':
+            continue
+        true_t = [tb for v, tb in sw['ts'] if v != 0] or [sw['else']]
+
+        def want(bi, b):
+            for s in b['st']:
+                if s['k'] != 'assign':
+                    continue
+                rv = s['rv']
+                ops = rv.get('ops', []) + ([rv['op']] if 'op' in rv else [])
+                for o in ops:
+                    if isinstance(o, dict) and o.get('k') == 'const' and 'str' in o:
+                        return o['str']
+            tt = b['term']
+            if tt and tt['k'] == 'switch':
+                return '<branch>'
+            return None
+        r = _follow(fn, true_t[0], want, limit=6)
+        if r is not None and r != '<branch>':
+            out.setdefault(lits[0], r)
+    return out
+
+
+def matched_literals(fn):
+    """All string literals a function compares its input with through `==` / matches!."""
+    out = set()
+    for bb, t in fn.calls():
+        if callee_short(t).endswith('PartialEq>::eq'):
+            for a in t['args']:
+                if a['k'] == 'const' and 'str' in a:
+                    out.add(a['str'])
+    return out
+
+
+def explicit_arms(prog, fn, adt_suffix):
+    """Variants of enum `adt_suffix` that have their own arm (a switch target different from the wildcard target) in
+    fn's largest switch on that enum's discriminant."""
+    cands = [a for p, a in prog.adts.items() if p.endswith(adt_suffix)]
+    if not cands:
+        return None
+    adt = cands[0]
+    by_discr = {v.get('discr', i): v['n'] for i, v in enumerate(adt['variants'])}
+    sw = discr_switches(fn, adt['p'].rsplit('::', 1)[-1])
+    if not sw:
+        return None
+    out = set()
+    for bb, t, _ in sw:
+        listed = {v for v, _ in t['ts']}
+        other = t['else']
+        for v, tb in t['ts']:
+            if tb != other and v in by_discr:
+                out.add(by_discr[v])
+        rest = [d for d in by_discr if d not in listed]
+        # when every remaining variant falls to `otherwise` and it is a real arm for exactly one variant
+        if len(rest) == 1:
+            tt = fn.blocks[other]['term']
+            if not (tt and tt['k'] == 'unreachable'):
+                out.add(by_discr[rest[0]])
+    return out
